@@ -146,4 +146,6 @@ def param_specs(curves=('UnitSquare', 'PiSquare', 'LShape', 'Circle', 'UnitInter
 
 
 def mesh_specs(**kw):
-    return st.one_of(abstract_specs(), param_specs(**kw), param_specs(**kw))
+    base = st.one_of(abstract_specs(), param_specs(**kw), param_specs(**kw))
+    # the grids may be handed over as lists, tuples or numpy arrays
+    return st.builds(lambda s, f: dict(s, grid_form=f), base, st.sampled_from(['list', 'list', 'tuple', 'array']))
